@@ -386,6 +386,11 @@ impl Monitors {
                 self.epochs += 1;
                 self.conn = Conn::Idle0;
             }
+            // failed while announcing the new identity: the switch (and the reset) has happened all the same
+            (Input::ChangeIdentity(id), _) if post.id == *id && pre.id != *id => {
+                self.epochs += 1;
+                self.conn = Conn::Idle0;
+            }
             _ => {}
         }
         let mut n_defunct = 0;
@@ -528,7 +533,8 @@ impl Monitors {
             stats.inc("self_down_triggers");
         }
         // Rejoin iff identity switched by itself
-        let user_change = matches!((&rec.input, rec.result), (Input::ChangeIdentity(_), Res::Ok));
+        // (a change_identity that fails while announcing the new identity has nevertheless switched to it)
+        let user_change = matches!(&rec.input, Input::ChangeIdentity(id) if rec.result == Res::Ok || (post.id == *id && pre.id != *id));
         if n_rejoin > 0 {
             stats.add("rejoins", n_rejoin);
             let last = rec.notes().filter_map(|n| if let OwnedNotification::Rejoin(id) = n { Some(*id) } else { None }).last().unwrap();
